@@ -406,3 +406,27 @@ Theorem C18_shared_queue_refuted :
   exists members evs g p, In (g, Some p) (sh_run members [] evs) /\ c_fn p <> g.
 Proof. exact shared_queue_refuted. Qed.
 Print Assumptions C18_shared_queue_refuted.
+
+(* ---- Wave 13: connection histories on one transport object ---- *)
+
+(* The reader's state is per connection.  For every history on one SocketTransport object — any reads, streams that broke off
+   at any byte of a frame (header or payload), any number of disconnect()/connect() — the reads made on a new connection are
+   the parse of THAT connection's stream alone, and if it carries the packets ps under any fragmentation they are exactly ps. *)
+Theorem C18_session_independent : forall pre s0 s2 n,
+  t_run s0 (pre ++ TReconnect s2 :: repeat TRead n) = t_run s0 pre ++ fst (read_n n s2).
+Proof. exact session_independent. Qed.
+Print Assumptions C18_session_independent.
+
+Theorem C18_session_reassembly : forall pre s0 s2 ps, Forall wf_cpx ps -> chunking s2 (concat (map frame ps)) ->
+  t_run s0 (pre ++ TReconnect s2 :: repeat TRead (length ps)) = t_run s0 pre ++ map Ok ps.
+Proof. exact session_reassembly. Qed.
+Print Assumptions C18_session_reassembly.
+
+(* a reader that keeps the unfinished frame in the transport object across disconnect()/connect() splices the old bytes onto
+   the new stream: the first packet of the new connection is not what the stream carries *)
+Theorem C18_carried_rx_state_refuted :
+  exists s1 s2, chunking s2 (frame new_p) /\
+    t_run s1 [TRead; TReconnect s2; TRead] = [Exc EndOfStream; Ok new_p] /\
+    ts_run (None, []) s1 [TRead; TReconnect s2; TRead] <> [Exc EndOfStream; Ok new_p].
+Proof. exact carried_state_refuted. Qed.
+Print Assumptions C18_carried_rx_state_refuted.
